@@ -33,6 +33,13 @@ type Case struct {
 	After   int          `json:"after"`   // calls made after the failure
 	Holds   []sched.Hold `json:"holds,omitempty"`
 	Late    bool         `json:"late,omitempty"` // one more call is started while the failure is in progress (interleaving table)
+	// entry storm (TestPropEntryStorm)
+	Callers int    `json:"callers,omitempty"` // goroutines entering Rpc when the connection fails
+	Rounds  int    `json:"rounds,omitempty"`  // fresh connections failed one after the other
+	Mode    string `json:"mode,omitempty"`
+	Perturb uint64 `json:"perturb,omitempty"` // seed of the schedule perturbation at the client hook points and of the per-round delays
+	Procs   int    `json:"procs,omitempty"`   // GOMAXPROCS
+	Spread  int    `json:"spread,omitempty"`
 }
 
 const deadline = 25 * time.Second
